@@ -166,6 +166,12 @@ def run(ctx):
             "cases_per_callee_kind_and_arity_relation": arity, "cases_per_context": arity_ctx,
             "outcomes": outcomes.get("call-arity", {}),
         },
+        "fuel_limit_catalogue": {
+            "what": "the fuel-limit catalogue of C12 (harness/src/c12.rs::fuel_limit_inputs, sized from the fuel measured on the real parser: "
+                    "lookahead-only scans, frames that look while they unwind, consuming loops, followers of an out-of-fuel construct), restricted "
+                    "to the texts the parser reports a diagnostic for, through parse + compile",
+            "cases": per_stream.get("fuel-limit", 0), "outcomes": outcomes.get("fuel-limit", {}),
+        },
         "chunks_abandoned": len(ABANDONED),
         "findings_by_signature": [{"signature": g["sig"], "hits": g["n"]} for g in groups.values()],
         "tie": {"op_sequences": n_tie, "equal": n_tie_eq, "samples": tie_samples},
